@@ -10,6 +10,8 @@ THEOREMS = [
     (NS + "C01_keyed_decode_needs_open", "full"),
     (NS + "C01_keyed_unauthentic_noop", "full"),
     (NS + "C01_prekey_single_hello", "full"),
+    (NS + "C01_history_noninterference", "full"),
+    (NS + "C01_roles_do_not_read_dropped", "full"),
 ]
 ASSUMPTIONS = [
     "INT-CTXT of AES-GCM (a datagram not produced with the key does not open) is assumed outside Lean; the theorems "
@@ -18,6 +20,10 @@ ASSUMPTIONS = [
     "the driver instantiates the AEAD parameter with a toy MAC so that histories run inside the model; the real runs use "
     "the real AES-GCM; datagram lengths and header bytes coincide, so byte-level mutations are applied identically",
     "header parse errors (PacketHeader.from_bytes) happen before _recv_datagram and change no state",
+    "history level (C01_history_noninterference): for every history and every marking of datagram arrivals that the endpoint - in the state it "
+    "has without them - does not authenticate, erasing the marked operations changes the final state only in stats.dropped and changes no "
+    "output of any other operation; rests on 'dropped is write-only' (every operation of the model commutes with adding to the counter, "
+    "Lemmas/Bump.lean), proved for the base class and both handshake roles for every instantiation of the external functions",
 ]
 RULE = ("two-party histories (client a, server b, shared key) generated against the real code under loss/duplication/delay, "
         "with an attacker stream injected at random points towards both endpoints: CRC-valid forged plaintext of every packet "
